@@ -160,7 +160,7 @@ func cfgHash(c config.ServerConfig) string { return canon(c) }
 func runC15(b *mon.B) {
 	r := gen.New(uint64(b.Seed), 0xC15, uint64(b.Index))
 	act := &activity{pairs: map[string]bool{}, ops: map[string]int{}}
-	rounds := b.N(3, 14)
+	rounds := b.N1(3, 14)
 	caseNo := 0
 	for round := 0; round < rounds; round++ {
 		caseNo++
@@ -249,7 +249,7 @@ func c15Round(b *mon.B, r *gen.R, act *activity, caseNo, round int) {
 	var wg sync.WaitGroup
 
 	// ---- reloader
-	nReloads := b.N(25, 60)
+	nReloads := b.N1(25, 60)
 	wg.Add(1)
 	reloadRand := r.Fork(1)
 	go func() {
@@ -325,7 +325,7 @@ func c15Round(b *mon.B, r *gen.R, act *activity, caseNo, round int) {
 		}(p)
 	}
 	// ---- AAA clients
-	nClients := 8 + r.Intn(b.N(17, 41))
+	nClients := 8 + r.Intn(b.N1(17, 41))
 	var exchanges int64
 	var wrong int64
 	names := []string{"alice", "bob", "carol", "heidi", "erin", "ivan", "dave"}
